@@ -69,6 +69,17 @@ CLAIMS = {
         "Dea's totality (no IndexError for every sequence/limexp) is validated by the bit-exact model runs and the search, not "
         "yet by a theorem; k>1 transients from 2k+1 terms (Wynn's identity) is validated by exact-rational runs only.",
    technique="Lean 4 proof by loop invariant (in-place sweep = Wynn table) + bit-exact Float correspondence incl. state"),
+ 'C10': dict(
+   text="The integer logic of the step generators (_num_step_divisor, min_num_steps, num_steps, default ratio, constructor defaults, "
+        "exponent ranges of the basic generators) is regenerated from the source into Lean on every run. Theorems: "
+        "divisor_eq_richardson_step (the two separately maintained tables agree for every method, n, order); "
+        "default_count_suffices (for every method, n>=1, order and any generator that checks its count or has none, rule size - 1 < "
+        "num_steps, so the _apply guard cannot fire for a valid configuration); num_steps_logic; documented default ratios; "
+        "stepsMax/Min_closed_form, steps_geometric (steps[k+1]*rho = steps[k], nothing dropped for non-zero base/ratio, a zero base "
+        "dropped entirely) over ordered fields. Tie: translator + exact grid of the generated logic vs the implementation, emitted "
+        "lists vs the Rat model (<= 4 ulp, libm pow), rule size vs step count on a grid. Partial: EPS**(1/scale), log(1.718+|x|), "
+        "round(16/log rho) are transcendental inputs of the model.",
+   technique="Lean 4 proof on translator-generated definitions + exact/ulp correspondence of counts and sequences"),
 }
 
 checks = []
